@@ -25,6 +25,7 @@ func init() {
 			c.run("C10-R12", "ORDER: the receiver takes a chunk's begin time anew before every attempt to read its line", c10BeginPerAttempt)
 			c.run("C10-R13", "WHO-CALLS: what a cancelled step reports is the recorded cause, not the context's own error", c10Cause)
 			c.run("C10-S1", "shared with C07-R4: a directory is created — and so recorded for stop-and-delete — only when it did not exist", c07R4)
+			c.run("C10-S2", "shared with C18-R3: resume records its time and clears the pause start, which keeps the time spent paused out of the chunk times that size the drain a stop waits for", c18R3)
 			c.run("C10-R8", "MUST-PASS/WHO-CALLS: SIGINT/SIGTERM on the server reach the stop entry point", c10R8)
 			c.run("C10-S", "shared with C02: success only after the digest compare and the saved==size gate", func(c *Ctx) { c02Digest(c); c02SavedSize(c) })
 		})
